@@ -26,6 +26,11 @@ SYSTEM_BOOKKEEPING = ("previous_change", "previous_total_energy_footprints_sum_o
                       "initial_total_fabrication_footprints_sum_over_period", "simulation")
 
 
+def _S():
+    from . import spec
+    return spec
+
+
 def canon(v):
     """Canonical physical value of one attribute value."""
     if isinstance(v, dict):
@@ -54,16 +59,16 @@ def canon(v):
             return {"repr": "json:" + hashlib.sha1(json.dumps(val, sort_keys=True, default=str).encode()).hexdigest()}
         return {"repr": repr(val)}
     if isinstance(v, ListLinkedToModelingObj) or isinstance(v, list):
-        return {"links": [x.name for x in v]}
+        return {"links": [_S().key_of(x) for x in v]}
     if isinstance(v, (ModelingObject, ContextualModelingObjectAttribute)):
-        return {"link": v.name}
+        return {"link": _S().key_of(v)}
     if v is None or isinstance(v, (str, int, float, bool)):
         return {"repr": repr(v)}
     return {"repr": "<%s>" % type(v).__name__}
 
 
 def _key(k):
-    return k.name if hasattr(k, "name") else str(k)
+    return _S().key_of(k) if hasattr(k, "name") else str(k)
 
 
 def input_attr_names(obj):
